@@ -31,6 +31,10 @@ class Unsupported(Abort):
     """A model/fake was asked for something it does not implement."""
 
 
+class HarnessBug(BaseException):
+    """a mistake in the harness itself (never a verdict): propagates to a harness error, exit 2"""
+
+
 class _PathDone(BaseException):
     """Raised by prove()/fail() to end a path early after a violation was recorded."""
 
@@ -1045,7 +1049,7 @@ SHIMS = {
 def _register(name, v, kind):
     c = ctx()
     if name in c.vars:
-        raise RuntimeError(f"duplicate symbolic variable {name}")
+        raise HarnessBug(f"duplicate symbolic variable {name}")
     c.vars[name] = v
     c.var_kinds[name] = kind
 
